@@ -128,6 +128,12 @@ def rule_label(ctx: Ctx) -> RuleReport:
             def reads_member(v):
                 return isinstance(v, ast.Call) and isinstance(v.func, ast.Attribute) and v.func.attr == "read" and isinstance(v.func.value, ast.Name) and v.func.value.id in opened \
                     and bool(origin(opened[v.func.value.id]) & fn_origin)
+            # `data = None` on the way where the file is missing, and the step called under `data is not None`, is the same thing as skipping
+            none_defs = [v for v in defs if isinstance(v, ast.Constant) and v.value is None]
+            if none_defs and isinstance(fd, ast.Name):
+                conds_, _o, _l = path_conditions(fi.node, c)
+                if any(str(k) == f"{fd.id} is not None" for k in conds_):
+                    defs = [v for v in defs if v not in none_defs]
             path_ok = bool(defs)
             if path_ok and defs and all(reads_member(v) for v in defs):
                 rep.ok({"site": fi.qual, "bytes_from": "file written for this member name"})
